@@ -7,7 +7,8 @@ package ipamplugin
 // datastore client is a real clientv3 on the in-memory compare-and-swap datastore verifkit/memds
 // (injected through utils.VerifClientOverride, see checks/c38.json); every datastore call of
 // every ADD/DEL parks at a gate and is released by the test with a generated fault decision
-// (transient error, spurious CAS conflict, crash of the plugin process before / after the write).
+// (transient error, spurious CAS conflict, lost reply = the write lands but an error is returned,
+// crash of the plugin process before / after the write).
 //
 // Oracle (statement C38 + design/ipam/ipam-cni.md, the property's anchor document):
 //
@@ -20,12 +21,15 @@ package ipamplugin
 //	O2  a successful ADD reports exactly one address for every requested family and every
 //	    reported address is recorded as allocated, in its block, under the container's primary
 //	    handle;
-//	O3  a DEL that received no injected error / crash returns success ("DEL is idempotent; not
+//	O3  a DEL that received no injected error / lost reply / crash returns success ("DEL is idempotent; not
 //	    found is success"): repeated DEL, DEL with nothing allocated, DEL after a failed, partial
 //	    or crashed ADD;
 //	O4  (ipam-cni.md "Dual-stack": half-success must release the successful family) a dual-stack
-//	    ADD that fails with the partial-fulfilment error and received no injected error / crash
-//	    leaves the set of addresses held by the container's handle unchanged.
+//	    ADD that fails with the partial-fulfilment error and received no injected error / lost reply
+//	    / crash leaves the set of addresses held by the container's handle unchanged.
+//
+// Known finding c38SigLostReplyAssign (reproducer TestVerifC38ConfirmLostReplyLeak): when the driver
+// lists it as known, exactly that fault (lost reply on an ADD's own block write) is not generated.
 //
 // Every history ends with two fault-free DELs per container ("the final delete", and its repeat).
 
@@ -817,11 +821,11 @@ func TestVerifC38AddDel(t *testing.T) {
 	defer func() { os.Stderr = oldStderr; _ = devnull.Close(); ev.Quiet() }()
 
 	rec := ev.New("C38", "plugin",
-		"rapid draws 2-10 (thorough: 2-14) steps (ADD / DEL of container A or B in v4, v6, dual-stack or explicit-IP mode, pool fill / unfill by a foreign handle, a v2.x-era allocation under the workload-id handle) and for every ADD/DEL a fault plan (0-2 of: transient error, CAS conflict, crash before/after, at a uniformly drawn datastore call); two fault-free DELs per container close the history. Non-trivial: at least one ADD succeeded and was later deleted, and the history contains an injected fault, a failed/partial/crashed ADD followed by DEL, a repeated DEL, a dual-stack half-success or a legacy-handle allocation. Distinct: sequence of (step kind, container, mode, outcome, injected fault kinds).",
+		"rapid draws 2-10 (thorough: 2-14) steps (ADD / DEL of container A or B in v4, v6, dual-stack or explicit-IP mode, pool fill / unfill by a foreign handle, a v2.x-era allocation under the workload-id handle) and for every ADD/DEL a fault plan (0-2 of: transient error, CAS conflict, lost reply, crash before/after, at a uniformly drawn datastore call / write / CAS call); two fault-free DELs per container close the history. Non-trivial: at least one ADD succeeded and was later deleted, and the history contains an injected fault, a failed/partial/crashed ADD followed by DEL, a repeated DEL, a dual-stack half-success or a legacy-handle allocation. Distinct: sequence of (step kind, container, mode, outcome, injected fault kinds).",
 		"verifkit/memds implements the backend contract (CAS by revision, JSON round trip)",
 		"the plugin's calls are sequential (host-wide IPAM lock); no concurrent plugins or nodes",
 		"no Kubernetes / KubeVirt client paths (no kubeconfig, policy type not k8s, pod names without virt-launcher-)",
-		"lost replies (write landed, error returned) are not injected")
+		"handle records are only asserted for containers whose calls never received an injected error, lost reply or crash (documented over-count residue)")
 	defer rec.Write()
 
 	rapid.Check(t, func(t *rapid.T) {
